@@ -155,3 +155,5 @@ func hasSuffixAny(s string, suffixes ...string) bool {
 	}
 	return false
 }
+
+func sortStrings(s []string) { sort.Strings(s) }
